@@ -1,6 +1,6 @@
 """C09 — 3-D bond-orientational order equals Steinhardt's definitions (class boo_3d of PyMatterSim/static/boo.py).
 
-Functions under contract: boo_3d.qlm_Qlm, ql_Ql, sij_ql_Ql, w_W_cap, spatial_corr, time_corr, utils.funcs.Wignerindex.
+Functions under contract: boo_3d.__init__, qlm_Qlm, ql_Ql, sij_ql_Ql, w_W_cap, spatial_corr, time_corr, utils.funcs.Wignerindex.
 Callee contracts used (not bodies): read_neighbors (C05), remove_pbc (C02), sph_harm_l (C08), conditional_gr (C13),
 time_correlation (C14).
 
@@ -11,7 +11,8 @@ nb_j = NB(n,i,1+j) (j < cn), bond b = D_n(i, nb_j) (minimum image, C02), theta =
   q_l        = sqrt(4 pi/(2l+1) sum_m |q_lm|^2)                                                               (eq. 4)
   s(i,j)     = Re(sum_m q_lm(i) conj q_lm(j)) / (|q(i)| |q(j)|);   count_i = #{j < cn : s(i,nb_j) > c}         (eq. 5)
   w_l        = sum_{m1+m2+m3=0} W3j(l,m1,m2,m3) Re(q_lm1 q_lm2 q_lm3),   w^_l = w_l (sum_m |q_lm|^2)^(-3/2)   (eq. 6, 7)
-  G_l, C_l   = the callee contracts of conditional_gr / time_correlation applied to the vector field q_lm (eq. 8, 9)
+  spatial_corr = frame mean of conditional_gr(frame n, q_lm[n], 'vector', ppp, rdelta): columns r, gr, gA;  G_l(r) = 4 pi/(2l+1) gA/gr (eq. 8)
+  time_corr    = time_correlation(trajectory, q_lm, dt) rescaled by 4 pi/(2l+1) and divided by its row 0:  C(k)/C(0)      (eq. 9, = 1 at t = 0)
 The m axis is index m + l of an axis of length 2l+1.  Y_lm is the definition of C08 (abstract function of l, m, polar,
 azimuth: this property needs only that sph_harm_l returns that table, plus the addition theorem for the bounds).
 """
@@ -27,33 +28,62 @@ MOD = "PyMatterSim.static.boo"
 CLS = "boo_3d"
 
 NOT_DECIDED = [
-    "boo_3d.spatial_corr and boo_3d.time_corr (eq. 8, 9: frame average of conditional_gr / rescaled time_correlation of the q_lm field): "
-    "not put under contract in this round (they need the C13 / C14 callee contracts); observed while reading: spatial_corr returns the "
-    "columns r, gr, gA of conditional_gr averaged over frames and applies neither the 4 pi/(2l+1) factor nor the division by g(r) of "
-    "eq. (8); time_corr is renormalised to 1 at t = 0, so the 4 pi/(2l+1) factor of eq. (9) cancels",
+    "eq. (8), (9) of docs/boo_3d.md as printed against the returned frames (documentation looseness, not judged a code defect; details in "
+    "design_notes/C09.md): spatial_corr returns the library's usual ingredients r, gr, gA (docs/gr.md: 'the spatial correlation function "
+    "is g_A(r)/g(r)', the golden test divides gA by gr itself) — no returned column is G_l(r), and the prefactor 4 pi/(2l+1) of eq. (8) is "
+    "never applied: G_l(r_b) = 4 pi/(2l+1) gA(b)/gr(b) (lemma eq(8): the quotient of the two returned frame means is the pair average "
+    "pooled over the frames); time_corr is normalised to exactly 1 at t = 0 (as its golden test and C14 say), whereas eq. (9) as printed "
+    "puts 4 pi/(2l+1) in front of an already normalised ratio (it would give C_l(0) = 4 pi/(2l+1)): the factor cancels in the code (lemma eq(9))",
+    "the values of conditional_gr and time_correlation themselves for a complex vector field of 2l+1 components: they enter through the "
+    "callee contracts; C13 proves conditional_gr's contract for complex vector fields with 2 or 3 components (the component loop is the same "
+    "numpy reduction for every width), C14 proves time_correlation's for a symbolic number of components; both callee units are re-verified "
+    "with this check",
     "0 <= q_l <= 1 and |s_ij| <= 1 as statements about the returned arrays for every neighbour count: proved as lemmas on the spec "
     "(Lagrange identity for l = 1..12; convexity identity, induction step and base for q_l); the induction over the number of bonds, "
     "the linearity of the m-sum and the addition theorem for l > 10 are not mechanised (no Lean lemma library in this build)",
     "reference values of perfect fcc/bcc/hcp/sc/icosahedral environments (instances, not a for-all statement); rotation invariance (C07)",
-    "values of the Wigner 3-j symbols (sympy) and w_l for degrees other than l = 2 (w_W_cap is proved for the concrete degree 2; the "
-    "loop over the (2l+1)^3 index triples is executed, not summarised); file layout of outputsij (np.savetxt with a format string "
-    "built from max_neighbors) in sij_ql_Ql",
+    "values of the Wigner 3-j symbols (sympy); w_l for degrees other than l = 2, 3, 4, 6 (w_W_cap is proved for these concrete degrees: the "
+    "loop over the (2l+1)^3 index triples of Wignerindex is executed, not summarised; for l = 8, 10, 12 the loop-step goals over the "
+    "resulting polynomials (hundreds of cubic terms) exceed the quick-tier solver budget; the replay runs l = 2, 4); the characters "
+    "np.savetxt produces for the outputsij file (proved: the written array is the returned one, header 'id CN sij', comments '', format = "
+    "'%d %d ' + maxcn times '%.6f ', one format per column; the rendering of a number by a format is numpy's)",
     "float32 storage of s_ij (A1: floats are reals; the replay compares s_ij with tolerance 2e-6); NaN for particles without neighbour "
-    "or with zero weight sum (excluded by the property's quantifier: every particle has >= 1 neighbour, positive weights)",
+    "or with zero weight sum (excluded by the property's quantifier: every particle has >= 1 neighbour, positive weights); bin membership "
+    "of pair distances within one ulp of a bin edge (C13); a time correlation whose lag-zero value is exactly 0 (precondition, as in C14)",
 ]
 TRUSTED = [
     "callee contract of read_neighbors (C05): frame k of the file on the k-th call; (N, 1+MAXCN) array, column 0 = cn_i in [1, MAXCN] with "
     "MAXCN <= Nmax, columns 1..cn_i zero-based indices in [0, N) (int) resp. positive weights (float), zero padding beyond cn_i; the weight "
     "file has the coordination numbers of the neighbour file",
     "callee contract of sph_harm_l (C08 Dispatch): entry k of the returned table of length 2l+1 is Y_{l,k-l}(polar, azimuth); of remove_pbc (C02)",
+    "callee contract of conditional_gr (C13, complex vector field, conditiontype 'vector'): requires N >= 2, rdelta > 0, every box length >= "
+    "2 rdelta, invertible cell, ppp in {0,1}^3; returns a fresh frame with columns r, gr, gA and int(Lmin/2/rdelta) rows, r[b] = (b+1) rdelta "
+    "- rdelta/2, gr[b] / gA[b] = CGR(frame, b, column): the value conditional_gr returns for exactly the arguments checked at the call "
+    "(relational table; its closed form 2 V cnt/(N^2 shell_b) is C13's)",
+    "callee contract of time_correlation (C14, rank-3 series): frame (t, time_corr) with T rows, t[k] = (ts_k - ts_0) dt, time_corr[k] = "
+    "C(k)/C(0) with C the origin-averaged (evenly spaced frames, T >= 2) or first-origin autocorrelation Re sum_i sum_m A[n0+k,i,m] "
+    "conj A[n0,i,m], time_corr[0] = 1; requires C(0) != 0; writes its table when given an output file; which of the two spacings applies "
+    "is an unconstrained boolean here (both are covered)",
+    "object invariant of boo_3d (unit Init: attributes = arguments, smallqlm / largeQlm = the pair returned by qlm_Qlm; the two asserts of "
+    "__init__: every frame has the particle number and the box lengths of frame 0 — a failing assert is a raising path outside the "
+    "statement's inputs): in the units of the other methods the fields are arbitrary complex (T, N, 2l+1) arrays and BL(s, c) = BL(0, c)",
     "open() returns a handle whose only state is the number of frames consumed (pyvc/libext/C09.py); close() has no effect on the results",
     "np.arctan2, np.arccos element-wise (uninterpreted with axioms), np.linalg.norm, np.concatenate(axis=0) of equally shaped items, "
     "np.column_stack, np.ravel/reshape row-major, np.prod over a concrete axis, pandas DataFrame(2-D array, columns) / to_csv = write event, "
-    "sympy wigner_3j(...).evalf() = uninterpreted real function W3J of its six arguments",
+    "DataFrame arithmetic (0 + frame, frame + frame of equal columns and length, frame / scalar: element-wise per column), column `*=` / "
+    "`/=` in place, .loc[row, column] = the scalar stored there, sympy wigner_3j(...).evalf() = uninterpreted real function W3J of its six arguments",
     "Sigma rules of pyvc/axioms.py: unfold, extensionality, zero tail (same lower bound, summand 0 beyond the shorter range), zero body "
     "(counting sums); loop summaries (accumulation, guarded accumulation with hoisted guard / Kronecker-delta collapse, scatter store, "
-    "append of a fresh array, object attribute advanced per iteration) are validated by loop:init / loop:step obligations",
-    "sum_{j<cn} a = cn a and linearity of finite sums in the lemmas (equal weights, q_l bound)",
+    "append of a fresh array, object attribute advanced per iteration) are validated by loop:init / loop:step obligations; the written "
+    "invariant of the spatial_corr frame loop by init / step obligations generated from executions of the real body",
+    "solver accelerator used for w_W_cap: nonlinear products as uninterpreted functions (pyvc/solve.py _try_uf_abstraction; an unsat of the "
+    "abstraction is an unsat of the original)",
+    "pyvc/libext/C09.py: str * n for a symbolic integer n and concatenation of such strings (RepStr: literal pieces with repetition counts); "
+    "np.savetxt(path, X, fmt=<multi-format string>) requires one % format per column (side obligation) and is a write event; int(x) of a real "
+    "that is syntactically a float copy of an integer is that integer; np.concatenate(axis=0) of a symbolic list of (n, c) items: row r is row "
+    "r - q n of item q, q the Euclidean quotient of r by n (uninterpreted EUCLID_QUOT with the axiom 0 <= r - q n < n, n > 0); ndarray.max over "
+    "a symbolic axis: attained at a witness index, upper bound of every element (instantiated at row n*N+i in the clause maxcn:bounds)",
+    "sum_{j<cn} a = cn a and linearity of finite sums in the lemmas (equal weights, q_l bound); induction over the frames in lemma eq(8)",
 ]
 
 
@@ -175,26 +205,44 @@ def _Y_table(l, theta, phi):
     return np.array([sp.sph_harm(m, l, phi % (2 * np.pi), theta) for m in range(-l, l + 1)])
 
 
-def _make_system(rng, trial, tmpdir, weighted, l):
-    """seeded trajectory + neighbour file (+ weight file) in the format of the neighbors module"""
+def _make_system(rng, trial, tmpdir, weighted, l, frames=None, steps=None):
+    """seeded trajectory + neighbour file (+ weight file) in the format of the neighbors module; frames: number of frames (default
+    seeded 1..3); steps(T) -> list of the T integer timesteps (default 0, 10, 20, ...)"""
     import importlib
     import os
     import numpy as np
     RUm = importlib.import_module("PyMatterSim.reader.reader_utils")
     N = int(rng.integers(3, 9))
     T = int(rng.integers(1, 4))
+    if frames is not None:
+        T = int(frames)
+    tsteps = [int(x) for x in steps(T)] if steps is not None else [10 * s for s in range(T)]
     L = rng.uniform(3.0, 6.0, size=3)
     H = np.diag(L)
     if trial % 2 == 1:
         H[1, 0] = rng.uniform(-0.4, 0.4) * L[0]
         H[2, 0] = rng.uniform(-0.3, 0.3) * L[0]
         H[2, 1] = rng.uniform(-0.3, 0.3) * L[1]
+        if frames is None and T == 1 and trial % 4 == 1:
+            T = 2
+            tsteps = [int(x) for x in steps(T)] if steps is not None else [10 * s for s in range(T)]
     ppp = np.array([int(rng.integers(0, 2)) for _ in range(3)]) if trial % 3 == 2 else np.ones(3, dtype=int)
     Nmax = int(rng.choice([30, 30, 4]))
+    # the cell of every frame: __init__ asserts equal box LENGTHS only, so in the triclinic trials the tilt factors change from frame
+    # to frame (sheared sample at constant lx, ly, lz); the neighbours are drawn among all particles, so most bonds cross a periodic face
+    Hs = [H]
+    for s in range(1, T):
+        Hf = np.diag(L)
+        if trial % 2 == 1:
+            Hf[1, 0] = rng.uniform(-0.4, 0.4) * L[0]
+            Hf[2, 0] = rng.uniform(-0.3, 0.3) * L[0]
+            Hf[2, 1] = rng.uniform(-0.3, 0.3) * L[1]
+        Hs.append(Hf)
     snaps, nbs, wts = [], [], []
     for s in range(T):
+        H = Hs[s]
         pos = rng.uniform(0, 1, size=(N, 3)) @ H
-        snaps.append(RUm.SingleSnapshot(timestep=10 * s, nparticle=N, particle_type=np.ones(N, dtype=int), positions=pos, boxlength=L.copy(),
+        snaps.append(RUm.SingleSnapshot(timestep=tsteps[s], nparticle=N, particle_type=np.ones(N, dtype=int), positions=pos, boxlength=L.copy(),
                                         boxbounds=np.column_stack([np.zeros(3), L]), realbounds=np.column_stack([np.zeros(3), L]), hmatrix=H.copy()))
         fn, fw = [], []
         for i in range(N):
@@ -217,17 +265,19 @@ def _make_system(rng, trial, tmpdir, weighted, l):
             for i in range(N):
                 f.write(f"{i+1} {len(wts[s][i])} " + " ".join(repr(w) for w in wts[s][i]) + "\n")
     S = RUm.Snapshots(nsnapshots=T, snapshots=snaps)
-    return dict(N=N, T=T, H=H, L=L, ppp=ppp, Nmax=Nmax, snaps=snaps, S=S, nbs=nbs, wts=wts, nfile=nfile, wfile=wfile if weighted else None, l=l)
+    return dict(N=N, T=T, H=Hs[0], Hs=Hs, L=L, ppp=ppp, Nmax=Nmax, snaps=snaps, S=S, nbs=nbs, wts=wts, nfile=nfile, wfile=wfile if weighted else None, l=l,
+                timesteps=tsteps)
 
 
 def _ref_fields(sy):
     """q and Q by eq. (1)-(3), plain loops"""
     import numpy as np
-    N, T, H, ppp, l, Nmax = sy["N"], sy["T"], sy["H"], sy["ppp"], sy["l"], sy["Nmax"]
-    Hinv = np.linalg.inv(H)
+    N, T, ppp, l, Nmax = sy["N"], sy["T"], sy["ppp"], sy["l"], sy["Nmax"]
     q = np.zeros((T, N, 2 * l + 1), dtype=complex)
     Q = np.zeros_like(q)
     for s in range(T):
+        H = sy["Hs"][s]          # the cell of this frame
+        Hinv = np.linalg.inv(H)
         pos = sy["snaps"][s].positions
         for i in range(N):
             nb_ = sy["nbs"][s][i][:Nmax]
@@ -253,6 +303,7 @@ def _close(a, b, rel=1e-9, abs_=1e-11):
 
 def _replay_boo(what, case, clause, model, seed):
     import importlib
+    import os
     import shutil
     import tempfile
     import numpy as np
@@ -265,13 +316,20 @@ def _replay_boo(what, case, clause, model, seed):
     tried = 0
     try:
         for trial in range(10):
-            weighted = ("weighted" in case and "unweighted" not in case) if what == "qlm_Qlm" else (trial % 2 == 0)
+            weighted = ("weighted" in case and "unweighted" not in case) if what in ("qlm_Qlm", "init") else (trial % 2 == 0)
             l = int(rng.choice([2, 4, 6, 3, 11])) if what != "w_W_cap" else int(rng.choice([2, 4]))
             if case.startswith("l="):
                 l = int(case.split("/")[0][2:])
-            sy = _make_system(rng, trial, tmpdir, weighted, l)
-            info = {k: sy[k] for k in ("N", "T", "l", "Nmax")}
-            info.update(hmatrix=sy["H"].tolist(), ppp=sy["ppp"].tolist(), weighted=bool(weighted), neighbours=sy["nbs"],
+            kw = {}
+            if what == "spatial_corr":
+                kw = dict(frames=[1, 2, 3, 2][trial % 4])
+            elif what == "time_corr":
+                # one frame; two frames (always "evenly spaced"); evenly spaced with a non-zero first timestep; unevenly spaced (first origin only)
+                kw = [dict(frames=1), dict(frames=2, steps=lambda T: [7, 19]), dict(frames=4, steps=lambda T: [5 + 20 * s for s in range(T)]),
+                      dict(frames=4, steps=lambda T: [0, 10, 30, 70][:T]), dict(frames=3, steps=lambda T: [3, 4, 9][:T])][trial % 5]
+            sy = _make_system(rng, trial, tmpdir, weighted, l, **kw)
+            info = {k: sy[k] for k in ("N", "T", "l", "Nmax", "timesteps")}
+            info.update(hmatrix_per_frame=[h.tolist() for h in sy["Hs"]], ppp=sy["ppp"].tolist(), weighted=bool(weighted), neighbours=sy["nbs"],
                         weights=sy["wts"] if weighted else None, positions=[sn.positions.tolist() for sn in sy["snaps"]])
             try:
                 obj = B.boo_3d(sy["S"], l=l, neighborfile=sy["nfile"], weightsfile=sy["wfile"], ppp=sy["ppp"], Nmax=sy["Nmax"])
@@ -279,7 +337,12 @@ def _replay_boo(what, case, clause, model, seed):
                 return {"ran": True, "failed": True, "inputs": info, "detail": f"boo_3d(...) raises {type(e).__name__}: {e}", "searched": tried}
             q, Q = _ref_fields(sy)
             tried += 1
-            bad = _check_method(B, obj, what, case, sy, q, Q, tmpdir, rng)
+            try:
+                bad = _check_method(B, obj, what, case, sy, q, Q, tmpdir, rng)
+            except Exception as e:      # the methods under contract have no specified raising path
+                import traceback
+                where = traceback.extract_tb(e.__traceback__)[-1]
+                bad = f"{what} raises {type(e).__name__}: {e} (at {os.path.basename(where.filename)}:{where.lineno})"
             if bad:
                 return {"ran": True, "failed": True, "inputs": info, "detail": bad, "searched": tried, "from_model": False}
         return {"ran": True, "failed": False, "searched": tried}
@@ -292,6 +355,13 @@ def _check_method(B, obj, what, case, sy, q, Q, tmpdir, rng):
     import os
     import numpy as np
     l, T, N, Nmax = sy["l"], sy["T"], sy["N"], sy["Nmax"]
+    if what == "init":
+        # the constructor's fields are the definitions (it calls qlm_Qlm), its bookkeeping attributes those of frame 0
+        if not (_close(obj.smallqlm, q) and _close(obj.largeQlm, Q)):
+            return "boo_3d(...).smallqlm / largeQlm differ from eq. (1)-(3)"
+        if obj.nparticle != N or not _close(obj.boxlength, sy["L"]) or obj.l != l or obj.Nmax != Nmax:
+            return f"attributes nparticle/boxlength/l/Nmax = {obj.nparticle}, {obj.boxlength}, {obj.l}, {obj.Nmax}"
+        return None
     if what == "qlm_Qlm":
         got_q, got_Q = obj.qlm_Qlm()
         if np.shape(got_q) != (T, N, 2 * l + 1) or np.shape(got_Q) != (T, N, 2 * l + 1):
@@ -329,20 +399,43 @@ def _check_method(B, obj, what, case, sy, q, Q, tmpdir, rng):
                     return "saved text file differs from the returned array"
         return None
     if what == "sij_ql_Ql":
-        csv = os.path.join(tmpdir, "sum_sij.csv") if case.endswith("csv") else None
+        kind = case.split("/")[1]
+        csv = os.path.join(tmpdir, "sum_sij.csv") if "csv" in kind else None
+        sijfile = os.path.join(tmpdir, "sij_ql.dat") if "sij" in kind else None
+        maxcn = max(len(sy["nbs"][s_][i][:Nmax]) for s_ in range(T) for i in range(N))
         first = obj.sij_ql_Ql(coarse_graining=cg, c=0.7, outputqlQl=None, outputsij=None)
         tie = float(np.asarray(first[0])[0, 2]) if isinstance(first, list) and len(first) and np.asarray(first[0]).shape[1] > 2 else 0.3
         # thresholds: the default, a positive and a negative one, and one equal to a stored s_ij (a tie: '>' must not count it)
         for c in (0.7, float(rng.uniform(0.0, 0.9)), float(rng.uniform(-0.9, -0.05)), tie):
-            got = obj.sij_ql_Ql(coarse_graining=cg, c=c, outputqlQl=csv, outputsij=None)
+            got = obj.sij_ql_Ql(coarse_graining=cg, c=c, outputqlQl=csv, outputsij=sijfile)
+            width = Nmax
+            if sijfile:
+                # with outputsij the frames are stacked and cut to 2 + (largest coordination number) columns; that table is returned and written
+                stacked = np.asarray(got)
+                if stacked.ndim != 2 or stacked.shape != (T * N, 2 + maxcn):
+                    return f"with outputsij: returned array of shape {stacked.shape}, expected (T*N, 2 + max cn) = {(T * N, 2 + maxcn)}"
+                width = maxcn
+                if not os.path.exists(sijfile):
+                    return "outputsij given but no file written"
+                with open(sijfile) as fh:
+                    lines = fh.read().splitlines()
+                if lines[0] != "id CN sij" or len(lines) != 1 + T * N:
+                    return f"outputsij file: first line {lines[0]!r}, {len(lines)} lines; expected the header 'id CN sij' and {T * N} rows"
+                for r_, line in enumerate(lines[1:]):
+                    tok = line.split()
+                    ok_ = len(tok) == 2 + maxcn and tok[0].lstrip("-").isdigit() and tok[1].isdigit() and all("." in x and len(x.split(".")[1]) == 6 for x in tok[2:])
+                    if not ok_ or int(tok[0]) != int(stacked[r_, 0]) or int(tok[1]) != int(stacked[r_, 1]) \
+                            or np.any(np.abs(np.array([float(x) for x in tok[2:]]) - stacked[r_, 2:]) > 1e-6):
+                        return f"outputsij file, row {r_}: {line!r} is not 'id cn' as integers followed by the {maxcn} returned s_ij with six decimals ({stacked[r_].tolist()})"
+                got = [stacked[s_ * N:(s_ + 1) * N] for s_ in range(T)]
             if not isinstance(got, list) or len(got) != T:
                 return f"returned {type(got).__name__} of length {len(got) if hasattr(got, '__len__') else '?'}; expected a list with one array per frame ({T})"
             counts = np.zeros((T, N), dtype=int)
             near = np.zeros((T, N), dtype=bool)
             for s_ in range(T):
                 a = np.asarray(got[s_])
-                if a.shape != (N, 2 + Nmax):
-                    return f"frame {s_}: array of shape {a.shape}, expected {(N, 2 + Nmax)}"
+                if a.shape != (N, 2 + width):
+                    return f"frame {s_}: array of shape {a.shape}, expected {(N, 2 + width)}"
                 for i in range(N):
                     nb_ = sy["nbs"][s_][i][:Nmax]
                     if a[i, 0] != i + 1 or a[i, 1] != len(nb_):
@@ -388,6 +481,94 @@ def _check_method(B, obj, what, case, sy, q, Q, tmpdir, rng):
         if files[0] and not (_close(np.load(files[0] + ".npy"), got_w) and _close(np.load(files[1]), got_c)
                              and _close(np.loadtxt(files[0]).reshape(T, N), got_w, rel=1e-4, abs_=1e-6)):
             return "saved files differ from the returned arrays"
+        return None
+    if what == "spatial_corr":
+        # eq. (8) through the conditional_gr contract (C13): per frame, every unordered pair once, weight Re sum_m q_lm(i) conj q_lm(j),
+        # B = int(Lmin/2/rdelta) bins of width rdelta, gA = 2 V cnt_w/(N^2 shell), gr = 2 V cnt_1/(N^2 shell); then the frame average
+        import pandas as pd
+        of = os.path.join(tmpdir, "gl.csv") if case.endswith("/file") else ""
+        rdelta = float(rng.choice([0.25, 0.4, 0.5]))
+        L, ppp = sy["L"], sy["ppp"]
+        try:
+            got = obj.spatial_corr(coarse_graining=cg, rdelta=rdelta, outputfile=of)
+        except Exception as e:
+            return f"spatial_corr(coarse_graining={cg}, rdelta={rdelta}) raises {type(e).__name__}: {e}"
+        B = int(L.min() / 2.0 / rdelta)
+        V = float(np.prod(L))
+        edges = np.arange(B + 1) * rdelta
+        shell = 4.0 / 3.0 * np.pi * (edges[1:] ** 3 - edges[:-1] ** 3)
+        want = np.zeros((B, 3))
+        for s_ in range(T):
+            pos = sy["snaps"][s_].positions
+            H = sy["Hs"][s_]
+            Hinv = np.linalg.inv(H)
+            c1, cw = np.zeros(B), np.zeros(B)
+            for i in range(N - 1):
+                for j in range(i + 1, N):
+                    m = (pos[j] - pos[i]) @ Hinv
+                    m = m - np.rint(m) * ppp
+                    b = m @ H
+                    d = float(np.sqrt((b * b).sum()))
+                    if d > B * rdelta:
+                        continue
+                    kbin = min(int(d / rdelta), B - 1)
+                    c1[kbin] += 1.0
+                    cw[kbin] += float((f[s_, i] * np.conj(f[s_, j])).sum().real)
+            want[:, 0] += edges[1:] - 0.5 * rdelta
+            want[:, 1] += 2.0 * V * c1 / (N * N * shell)
+            want[:, 2] += 2.0 * V * cw / (N * N * shell)
+        want /= T
+        if not hasattr(got, "columns") or list(got.columns) != GCOLS:
+            return f"spatial_corr returns columns {list(getattr(got, 'columns', []))}, expected {GCOLS}"
+        g = np.asarray(got.values, dtype=float)
+        if g.shape != want.shape:
+            return f"spatial_corr(rdelta={rdelta}) returns {g.shape[0]} rows, int(Lmin/2/rdelta) = {B}"
+        if not _close(g, want, rel=1e-8, abs_=1e-10):
+            kk = np.unravel_index(np.argmax(np.abs(g - want)), want.shape)
+            return (f"spatial_corr(coarse_graining={cg}, rdelta={rdelta}): column {GCOLS[kk[1]]}, bin {kk[0]}: got {g[kk]!r}, the frame average of "
+                    f"conditional g(r) of the {'Q' if cg else 'q'}_lm field (T = {T}) is {want[kk]!r}")
+        if of:
+            if not os.path.exists(of):
+                return "spatial_corr: no csv file written"
+            df = pd.read_csv(of)
+            if list(df.columns) != GCOLS or not _close(df.values, np.round(g, 8), rel=1e-9, abs_=2e-8):
+                return "spatial_corr: csv file differs from the returned frame (columns r,gr,gA, 8 decimals)"
+        elif os.path.exists(os.path.join(tmpdir, "gl.csv")) and not case.endswith("/file"):
+            return "spatial_corr wrote a file although outputfile is empty"
+        return None
+    if what == "time_corr":
+        # eq. (9) normalised to 1 at t = 0 (C14): all time origins for evenly spaced frames (T >= 2), the first frame only otherwise
+        import pandas as pd
+        of = os.path.join(tmpdir, "gl_time.csv") if case.endswith("/file") else ""
+        dt = float(rng.choice([0.002, 0.01, 0.5]))
+        try:
+            got = obj.time_corr(coarse_graining=cg, dt=dt, outputfile=of)
+        except Exception as e:
+            return f"time_corr(coarse_graining={cg}, dt={dt}) raises {type(e).__name__}: {e}"
+        ts = np.array(sy["timesteps"], dtype=int)
+        even = T >= 2 and len(set(np.diff(ts).tolist())) == 1
+
+        def P(a, b_):
+            return float((f[a] * np.conj(f[b_])).sum().real)
+        C = np.array([np.mean([P(n0 + k, n0) for n0 in range(T - k)]) if even else P(k, 0) for k in range(T)])
+        want = C / C[0]
+        if not hasattr(got, "columns") or list(got.columns) != ["t", "time_corr"] or len(got) != T:
+            return f"time_corr returns columns {list(getattr(got, 'columns', []))} and {len(got)} rows; expected t, time_corr and {T} rows"
+        tc_ = np.asarray(got["time_corr"].values, dtype=float)
+        if tc_[0] != 1.0:
+            return f"time_corr[0] = {tc_[0]!r}, the normalised correlation is exactly 1 at t = 0 (l = {l}, 4 pi/(2l+1) = {4 * np.pi / (2 * l + 1)!r})"
+        if not _close(tc_, want, rel=1e-9, abs_=1e-12):
+            kk = int(np.argmax(np.abs(tc_ - want)))
+            return (f"time_corr(coarse_graining={cg}, dt={dt})[{kk}] = {tc_[kk]!r}; C({kk})/C(0) of the {'Q' if cg else 'q'}_lm field "
+                    f"({'all origins' if even else 'first origin'}, timesteps {ts.tolist()}) = {want[kk]!r}")
+        if not _close(np.asarray(got["t"].values, dtype=float), (ts - ts[0]) * dt, rel=1e-12, abs_=1e-15):
+            return f"time axis {np.asarray(got['t'].values).tolist()}, expected (ts - ts_0) dt = {((ts - ts[0]) * dt).tolist()}"
+        if of:
+            if not os.path.exists(of):
+                return "time_corr: no csv file written"
+            df = pd.read_csv(of)
+            if list(df.columns) != ["t", "time_corr"] or not _close(df.values, np.round(np.asarray(got.values, dtype=float), 8), rel=1e-9, abs_=2e-8):
+                return "time_corr: csv file differs from the returned frame (columns t,time_corr, 8 decimals)"
         return None
     return "no replay for " + what
 
@@ -573,8 +754,10 @@ def sij_spec(q, M, n, i, j):
 
 class Sij(Unit):
     loop_opts = {"cond_acc": "guarded-first"}      # guarded accumulations: guard hoisted out of the sum / Kronecker collapse
-    """boo_3d.sij_ql_Ql(coarse_graining, c, outputqlQl, outputsij=None): per frame the array [id, cn, s_i0, .., s_i,Nmax-1] with
-    s_ij = eq. (5) for the cn_i neighbours and 0 beyond; the csv frame holds id, #{j < cn_i : s_ij > c}, cn_i for every frame"""
+    """boo_3d.sij_ql_Ql(coarse_graining, c, outputqlQl, outputsij): per frame the array [id, cn, s_i0, .., s_i,Nmax-1] with
+    s_ij = eq. (5) for the cn_i neighbours and 0 beyond; the csv frame holds id, #{j < cn_i : s_ij > c}, cn_i for every frame.
+    With outputsij the frames are stacked (row n*N + i), cut to 2 + maxcn columns (maxcn = the largest coordination number of the
+    trajectory) and written by np.savetxt with header 'id CN sij' and one format per column ('%d %d ' + maxcn * '%.6f '); that array is returned."""
     module = MOD
     qualname = f"{CLS}.sij_ql_Ql"
     prop = "C09"
@@ -589,7 +772,7 @@ class Sij(Unit):
         return self._summ
 
     def cases(self):
-        return [f"{cg}/{of}" for cg in ("local", "coarse") for of in ("nofile", "csv")]
+        return [f"{cg}/{of}" for cg in ("local", "coarse") for of in ("nofile", "csv")] + ["local/sij", "coarse/csv+sij"]
 
     def setup(self, ctx, case):
         from pyvc.libext.C09 import install_open
@@ -606,56 +789,124 @@ class Sij(Unit):
         ctx.interp.summaries = dict(self._summ)
         c = ctx.real("c")
         o, small, large, M = _boo_self(ctx, l, T, N, dict(snapshots=tr.snapshots(), neighborfile=NEIGHBORFILE, Nmax=Nmax))
-        csv = "sum_sij.csv" if of == "csv" else None
-        inp = dict(T=T, N=N, l=l, M=M, Nmax=Nmax, c=c, q=large if cg == "coarse" else small, csv=csv,
+        csv = "sum_sij.csv" if "csv" in of else None
+        sijfile = "sij_ql.dat" if "sij" in of else None
+        inp = dict(T=T, N=N, l=l, M=M, Nmax=Nmax, c=c, q=large if cg == "coarse" else small, csv=csv, sijfile=sijfile,
                    n=ctx.int("n"), i=ctx.int("i"), j=ctx.int("j"))
-        return [o], dict(coarse_graining=(cg == "coarse"), c=c, outputqlQl=csv, outputsij=None), inp
+        return [o], dict(coarse_graining=(cg == "coarse"), c=c, outputqlQl=csv, outputsij=sijfile), inp
 
     def clause_names(self, case):
-        names = ["returns-one-(N,2+Nmax)-array-per-frame", "column0=id", "column1=cn", "s_ij=Re(q_i.conj(q_j))/(|q_i||q_j|)", "padding=0"]
-        if case.endswith("csv"):
-            names += ["csv:columns-and-length", "csv:id", "csv:count=#{j<cn:s_ij>c}", "csv:num_neighbors=cn"]
+        of = case.split("/")[1]
+        if "sij" in of:
+            names = ["returns-the-stacked-(T*N,2+maxcn)-array", "stacked-table:row(n*N+i)=row-i-of-frame-n", "maxcn:attained-at-a-row-of-the-returned-array", "maxcn:bounds-every-coordination-number", "maxcn<=Nmax"]
         else:
+            names = ["returns-one-(N,2+Nmax)-array-per-frame"]
+        names += ["column0=id", "column1=cn", "s_ij=Re(q_i.conj(q_j))/(|q_i||q_j|)", "padding=0"]
+        if "csv" in of:
+            names += ["csv:columns-and-length", "csv:id", "csv:count=#{j<cn:s_ij>c}", "csv:num_neighbors=cn"]
+        if "sij" in of:
+            names += ["sijfile:np.savetxt(returned-array,header='id CN sij',one-format-per-column)"]
+        if of == "nofile":
             names += ["no-file-written"]
         return names
 
     def ensures(self, ctx, case, inp, out):
         from pyvc.interp import Ref
-        from pyvc.pandas_model import df_content
+        from pyvc.libext.C09 import RepStr
         res = out.value
         T, N, M, Nmax, n, i, j, q, c = (inp[x] for x in ("T", "N", "M", "Nmax", "n", "i", "j", "q", "c"))
-        ok = isinstance(res, Ref) and res.kind == "list" and isinstance(res.content, A.SeqVal) and A.dim_eq_syntactic(res.content.length, T)
-        item = res.content.fn(n) if ok else None
-        ok = ok and isinstance(item, A.Arr) and item.ndim == 2 and A.dim_eq_syntactic(item.shape[0], N) \
-            and A.dim_eq_syntactic(item.shape[1], A.simp(sv.add(2, Nmax)))
-        yield "returns-one-(N,2+Nmax)-array-per-frame", bool(ok)
-        if not ok:
-            return
         inr = sv.and_(sv.cmp(">=", n, 0), sv.cmp("<", n, T), sv.cmp(">=", i, 0), sv.cmp("<", i, N))
         cn = nb(n, i, 0)
-        yield "column0=id", sv.implies(inr, sv.cmp("==", item.get((i, 0)), sv.add(i, 1)))
-        yield "column1=cn", sv.implies(inr, sv.cmp("==", item.get((i, 1)), cn))
-        got = item.get((i, A.simp(sv.add(2, j))))
+        row = A.simp(sv.add(sv.mul(n, N), i))          # row of (frame n, particle i) in a table stacked over the frames
+        extra = []
+        if inp["sijfile"] is None:
+            ok = isinstance(res, Ref) and res.kind == "list" and isinstance(res.content, A.SeqVal) and A.dim_eq_syntactic(res.content.length, T)
+            item = res.content.fn(n) if ok else None
+            ok = ok and isinstance(item, A.Arr) and item.ndim == 2 and A.dim_eq_syntactic(item.shape[0], N) \
+                and A.dim_eq_syntactic(item.shape[1], A.simp(sv.add(2, Nmax)))
+            yield "returns-one-(N,2+Nmax)-array-per-frame", bool(ok)
+            if not ok:
+                return
+            width = Nmax
+
+            def cell(col):
+                return item.get((i, col))
+        else:
+            ok = isinstance(res, A.Arr) and res.ndim == 2 and A.dim_eq_syntactic(res.shape[0], A.simp(sv.mul(T, N)))
+            mxq = [f for f in out.state.qfacts if f[0] == "max"]
+            ok = ok and len(mxq) == 1
+            yield "returns-the-stacked-(T*N,2+maxcn)-array", bool(ok)
+            if not ok:
+                return
+            _, nrows, colreader, Mx, w = mxq[0][:5]
+            width = A.simp(sv.sub(res.shape[1], 2))       # maxcn: number of s_ij columns kept
+            # assumed contract of ndarray.max (attained at a row w, upper bound of every element): the bound instantiated at row n*N+i
+            bound = sv.implies(inr, sv.cmp("<=", colreader((row,)), Mx))
+            extra = [bound]
+            # (linear arithmetic + congruence: the products N*T, N*quotient are kept as uninterpreted terms)
+            yield "maxcn:attained-at-a-row-of-the-returned-array", sv.and_(sv.cmp(">=", w, 0), sv.cmp("<", w, sv.mul(T, N)), sv.cmp("==", res.get((w, 1)), width)), \
+                {"solver_opts": dict(self.solver_opts, uf_abstraction=True)}
+            yield "maxcn:bounds-every-coordination-number", sv.implies(inr, sv.cmp("<=", cn, width)), {"assume": extra}
+            yield "maxcn<=Nmax", sv.cmp("<=", width, Nmax)
+
+            # row n*N + i of the stacked table is row i of frame n's table when 0 <= i < N (the model of np.concatenate reads any other row
+            # through the Euclidean quotient of the row index: that alternative is cut off here — under `inr` its guard is true — and the
+            # cut is its own obligation, stated at an arbitrary column)
+            okz = sv.zb(sv.and_(sv.cmp(">=", i, 0), sv.cmp("<", i, N)))
+
+            def cut(v):
+                v = sv.norm(v)
+                if isinstance(v, sv.Cx):
+                    return sv.Cx(cut(v.re), cut(v.im))
+                return sv.wrap(z3.simplify(z3.substitute(v.t, (okz, z3.BoolVal(True))))) if isinstance(v, sv.SV) else v
+
+            def cell(col):
+                return cut(res.get((row, col)))
+            colv = sv.fresh_int("anycol")
+            yield ("stacked-table:row(n*N+i)=row-i-of-frame-n", sv.implies(sv.and_(inr, sv.cmp(">=", colv, 0), sv.cmp("<", colv, res.shape[1])),
+                                                                         sv.cmp("==", res.get((row, colv)), cell(colv))), {"solver_opts": {"unfold": False, "ext": False, "rounds": 1}})
+        yield "column0=id", sv.implies(inr, sv.cmp("==", cell(0), sv.add(i, 1))), {"assume": extra}
+        yield "column1=cn", sv.implies(inr, sv.cmp("==", cell(1), cn)), {"assume": extra}
+        got = cell(A.simp(sv.add(2, j)))
         want = sij_spec(q, M, n, i, nb(n, i, A.simp(sv.add(1, j))), )
-        yield "s_ij=Re(q_i.conj(q_j))/(|q_i||q_j|)", sv.implies(sv.and_(inr, sv.cmp(">=", j, 0), sv.cmp("<", j, cn)), sv.cmp("==", got, want))
-        yield "padding=0", sv.implies(sv.and_(inr, sv.cmp(">=", j, cn), sv.cmp("<", j, Nmax)), sv.cmp("==", got, 0))
-        writes = [e for e in out.state.trace if e[0] in ("to_csv", "np.savetxt", "np.save")]
-        if inp["csv"] is None:
-            yield "no-file-written", len(writes) == 0
-            return
-        good = len(writes) == 1 and writes[0][0] == "to_csv" and writes[0][1] == inp["csv"] and writes[0][3] == ["id", "sum_sij", "num_neighbors"]
-        yield "csv:columns-and-length", bool(good)
-        if not good:
-            return
-        cols = writes[0][2]
-        # row r of the file = frame r div N, particle r mod N: stated at row n*N + i
-        r = sv.add(sv.mul(n, N), i)
-        nrows_ok = A.dim_eq_syntactic(A.simp(cols["id"].shape[0]), A.simp(sv.mul(T, N)))
-        yield "csv:id", sv.and_(nrows_ok, sv.implies(inr, sv.cmp("==", cols["id"].get((r,)), sv.add(i, 1))))
-        # the count is taken over the returned s_ij of the cn_i bonds (whose values are fixed by the clause above)
-        cnt = Sum(0, cn, lambda jj: sv.ite(sv.cmp(">", item.get((i, A.simp(sv.add(2, jj)))), c), 1, 0))
-        yield "csv:count=#{j<cn:s_ij>c}", sv.implies(inr, sv.cmp("==", cols["sum_sij"].get((r,)), cnt)), {"solver_opts": {"rounds": 3, "ext_tail": True}}
-        yield "csv:num_neighbors=cn", sv.implies(inr, sv.cmp("==", cols["num_neighbors"].get((r,)), cn))
+        yield "s_ij=Re(q_i.conj(q_j))/(|q_i||q_j|)", sv.implies(sv.and_(inr, sv.cmp(">=", j, 0), sv.cmp("<", j, cn)), sv.cmp("==", got, want)), {"assume": extra}
+        yield "padding=0", sv.implies(sv.and_(inr, sv.cmp(">=", j, cn), sv.cmp("<", j, width)), sv.cmp("==", got, 0)), {"assume": extra}
+        csvw = [e for e in out.state.trace if e[0] == "to_csv"]
+        txtw = [e for e in out.state.trace if e[0] in ("np.savetxt", "np.save")]
+        if inp["csv"] is None and inp["sijfile"] is None:
+            yield "no-file-written", len(csvw) + len(txtw) == 0
+        if inp["csv"] is not None:
+            good = len(csvw) == 1 and csvw[0][1] == inp["csv"] and csvw[0][3] == ["id", "sum_sij", "num_neighbors"]
+            yield "csv:columns-and-length", bool(good)
+            if good:
+                cols = csvw[0][2]
+                # row r of the file = frame r div N, particle r mod N: stated at row n*N + i
+                nrows_ok = A.dim_eq_syntactic(A.simp(cols["id"].shape[0]), A.simp(sv.mul(T, N)))
+                yield "csv:id", sv.and_(nrows_ok, sv.implies(inr, sv.cmp("==", cols["id"].get((row,)), sv.add(i, 1))))
+                # the count is taken over the returned s_ij of the cn_i bonds (whose values are fixed by the clause above)
+                cnt = Sum(0, cn, lambda jj: sv.ite(sv.cmp(">", cell(A.simp(sv.add(2, jj))), c), 1, 0))
+                yield "csv:count=#{j<cn:s_ij>c}", sv.implies(inr, sv.cmp("==", cols["sum_sij"].get((row,)), cnt)), \
+                    {"solver_opts": {"rounds": 3, "ext_tail": True}, "assume": extra}
+                yield "csv:num_neighbors=cn", sv.implies(inr, sv.cmp("==", cols["num_neighbors"].get((row,)), cn))
+        elif csvw:
+            yield "no-file-written", False
+        if inp["sijfile"] is not None:
+            name = "sijfile:np.savetxt(returned-array,header='id CN sij',one-format-per-column)"
+            good = len(txtw) == 1 and txtw[0][0] == "np.savetxt" and txtw[0][1] == inp["sijfile"]
+            kw = txtw[0][3] if good else {}
+            fmt = kw.get("fmt")
+            # layout: the header line, then one line per row: two integers (id, cn) and maxcn numbers with six decimals
+            good = good and kw.get("header") == "id CN sij" and kw.get("comments") == "" and isinstance(fmt, RepStr) \
+                and len(fmt.parts) == 2 and fmt.parts[0] == ("%d %d ", 1) and fmt.parts[1][0] == "%.6f "
+            arr = txtw[0][2] if good else None
+            good = good and isinstance(arr, A.Arr) and arr.ndim == 2 and A.dim_eq_syntactic(arr.shape[0], res.shape[0]) and A.dim_eq_syntactic(arr.shape[1], res.shape[1])
+            if not good:
+                yield name, False
+            else:
+                col = sv.fresh_int("col")
+                yield name, sv.and_(sv.cmp("==", fmt.parts[1][1], width),
+                                    sv.implies(sv.and_(inr, sv.cmp(">=", col, 0), sv.cmp("<", col, res.shape[1])),
+                                               sv.cmp("==", arr.get((row, col)), res.get((row, col))))), {"assume": extra}
 
     def raises(self, ctx, case, inp, out):
         return None      # cn_i <= Nmax is guaranteed by read_neighbors: the ValueError branch must be unreachable
@@ -685,10 +936,15 @@ class WCap(Unit):
     module = MOD
     qualname = f"{CLS}.w_W_cap"
     prop = "C09"
-    timeout = 4      # the two loop-step identities are decided by the second solver (z3 4.8) in about a second
+    timeout = 10
+    # the two loop-step goals are "the stored polynomial at (n, i) is the closed form at (n, i)": equal up to substitution of equal
+    # indices — decided with the products as uninterpreted functions (sound for unsat) by congruence, for every degree; without it the
+    # nonlinear solvers need seconds for l = 2 and give up for l = 6
+    solver_opts = {"uf_abstraction": True, "uf_abstraction_timeout": 10}
 
     def cases(self):
-        return ["l=2/local/files", "l=2/coarse/nofile"]
+        # concrete degrees: the loop over the (2l+1)^3 index triples of Wignerindex is executed, the particle / frame loops are summarised
+        return ["l=2/local/files", "l=2/coarse/nofile", "l=3/coarse/nofile", "l=4/local/nofile", "l=4/coarse/files", "l=6/coarse/nofile", "l=6/local/files"]
 
     def setup(self, ctx, case):
         ls, cg, of = case.split("/")
@@ -736,6 +992,417 @@ class WCap(Unit):
         return _replay_boo("w_W_cap", case, clause, model, seed)
 
 
+# ---- spatial_corr / time_corr: the callee contracts of conditional_gr (C13) and time_correlation (C14) on the q_lm field -----------
+
+CGR = "PyMatterSim.static.gr.conditional_gr"
+TCORR = "PyMatterSim.dynamic.time_corr.time_correlation"
+GCOLS = ["r", "gr", "gA"]
+CALL_CGR = "call:conditional_gr(frame-n,q_lm[n],'vector',self.ppp,rdelta):arguments-and-preconditions"
+LOOP_INV = "frame-loop:invariant:glresults(k)=sum_{t<k}conditional_gr(frame-t)"
+CALL_TC = "call:time_correlation(trajectory,q_lm,dt):arguments-and-preconditions"
+
+
+def _named(goal, clause):
+    goal.clause = clause
+    return goal
+
+
+def _require(cond, kind, clause):
+    """side obligation of a call site / written loop summary that is reported under the named clause `clause` of the contract
+    (proved under the path condition at this point, then assumed — the same protocol as State.require)"""
+    from pyvc.loops import _SideGoal
+    from pyvc.state import cur
+    st = cur()
+    if sv.is_conc(cond):
+        if cond:
+            return
+        t = z3.BoolVal(False)
+    else:
+        t = sv.zb(cond)
+    g = _SideGoal(kind, t, st.all_assumptions(), st.where)
+    g.opts = None
+    g.clause = clause
+    st.side.append(g)
+    st.pc.append(t)
+
+
+def _same_array(a, b, what, clause):
+    """call-site obligation: array argument `a` has the shape and, at an arbitrary index, the elements of `b`"""
+    if not isinstance(a, A.Arr) or a.ndim != b.ndim:
+        _require(False, what + ":rank", clause)
+        return False
+    idx, conds = [], []
+    for k in range(b.ndim):
+        if not A.dim_eq_syntactic(a.shape[k], b.shape[k]):
+            _require(sv.cmp("==", a.shape[k], b.shape[k]), what + ":shape", clause)
+        t = sv.fresh_int("ai")
+        idx.append(t)
+        conds.append(sv.and_(sv.cmp(">=", t, 0), sv.cmp("<", t, b.shape[k])))
+    x, y = sv.as_cx(a.get(tuple(idx))), sv.as_cx(b.get(tuple(idx)))
+    _require(sv.implies(sv.and_(*conds), sv.and_(sv.cmp("==", x.re, y.re), sv.cmp("==", x.im, y.im))), what + ":elements", clause)
+    return True
+
+
+def _first_for_lineno(qual):
+    import ast
+    from pyvc.interp import load_module
+    node = load_module(MOD).get_class(qual.split(".")[0]).methods[qual.split(".")[1]]
+    for n in ast.walk(node):
+        if isinstance(n, ast.For):
+            return n.lineno
+    return None
+
+
+def _setup_corr(ctx, coarse):
+    """a boo_3d object after __init__ (object invariant): smallqlm / largeQlm arbitrary complex (T, N, 2l+1) fields, the trajectory,
+    the mask; every frame has the box lengths of frame 0 (asserted by __init__)"""
+    from contracts.C02 import _inv_spec
+    tr = Traj(ctx, 3)
+    T, N = tr.T, tr.N
+    l = _sym_l(ctx)
+    p = [ctx.int(f"ppp_{k}") for k in range(3)]
+    for k in range(3):
+        ctx.assume(sv.or_(sv.cmp("==", p[k], 0), sv.cmp("==", p[k], 1)))
+    ppp = A.from_nested(p, "int")
+    ctx.state.origin[ppp.sid] = "self.ppp"
+    snaps = tr.snapshots()
+    Nmax = ctx.int("Nmax")
+    o, small, large, M = _boo_self(ctx, l, T, N, dict(snapshots=snaps, ppp=ppp, neighborfile=NEIGHBORFILE, weightsfile=None, Nmax=Nmax))
+    BL = tr.BL
+    ctx.array_fact("BL", lambda s, c: BL(s, c) == BL(0, c))
+    ctx.array_fact("HM", lambda s, a, b: sv.zb(sv.cmp("!=", _inv_spec(tr.Hm(sv.SV(s)), 3)[0], 0)))
+    return o, dict(tr=tr, T=T, N=N, l=l, M=M, p=p, ppp=ppp, snaps=snaps, q=large if coarse else small, other=small if coarse else large)
+
+
+def rows_spec(tr, s, rd):
+    """C13 clause rows=int(Lmin/2/rdelta) for frame s"""
+    Ls = [tr.bl(s, c) for c in range(3)]
+    minL = Ls[0]
+    for L in Ls[1:]:
+        minL = sv.minv(minL, L)
+    return sv.trunc(sv.div(sv.div(minL, 2), rd))
+
+
+def bin_centre(b, rd):
+    """C13 clause r=bin-centre: right edge (b+1) rdelta minus half a bin"""
+    return sv.sub(sv.mul(sv.add(b, 1), rd), sv.mul(sv.to_frac(0.5), rd))
+
+
+class SpatialCorr(Unit):
+    """boo_3d.spatial_corr(coarse_graining, rdelta, outputfile): the frame average of conditional_gr(frame n, condition = q_lm[n] resp.
+    Q_lm[n], conditiontype "vector", the object's ppp, rdelta) — C13 callee contract: a frame with columns r, gr, gA and
+    int(Lmin/2/rdelta) rows, r_b the bin centre, gr / gA the table CGR_n(b, column) that conditional_gr returns for exactly these
+    arguments (every argument is a side obligation of the call).  Column c, bin b of the returned frame = (1/T) sum_n CGR_n(b, c).
+    The frame loop accumulates a DataFrame (0 + frame + frame ...): written invariant glresults(k) = sum_{t<k} CGR_t, with init / step
+    obligations generated from executions of the real body (init from the real pre-state glresults = 0)."""
+    module = MOD
+    qualname = f"{CLS}.spatial_corr"
+    prop = "C09"
+    timeout = 10
+
+    def cases(self):
+        return [f"{cg}/{of}" for cg in ("local", "coarse") for of in ("nofile", "file")]
+
+    def setup(self, ctx, case):
+        from contracts.C02 import _inv_spec
+        from pyvc.interp import Frame
+        from pyvc.loops import _SideGoal
+        from pyvc.pandas_model import df_content, new_df
+        from pyvc.state import cur, use_state
+        cg, of = case.split("/")
+        o, inp = _setup_corr(ctx, cg == "coarse")
+        tr, T, N, M, q = inp["tr"], inp["T"], inp["N"], inp["M"], inp["q"]
+        rd = ctx.real("rdelta")
+        # preconditions of conditional_gr (C13): at least two particles, positive bin width, at least one bin in every frame
+        ctx.assume(rd > 0)
+        ctx.assume(N >= 2)
+        BL = tr.BL
+        ctx.array_fact("BL", lambda s, c: z3.Implies(z3.And(c >= 0, c < 3), BL(s, c) >= 2 * sv.zr(rd)))
+        I = z3.IntSort()
+        CG = z3.Function("CGR", I, I, I, z3.RealSort())      # CGR(frame, bin, column): value returned by conditional_gr for that frame
+
+        def cg_val(s, b, ci):
+            return bin_centre(b, rd) if ci == 0 else sv.SV(CG(sv.znum(s), sv.znum(b), z3.IntVal(ci)))
+
+        def frame_table(nrows, fn):
+            return new_df({c: A.new_arr((nrows,), (lambda idx, ci=ci: fn(idx[0], ci)), "float") for ci, c in enumerate(GCOLS)}, GCOLS, nrows)
+
+        def cgr(interp, args, kwargs):
+            """callee contract of conditional_gr(snapshot, condition, conditiontype, ppp, rdelta) for a complex vector field (C13, kind
+            cvector).  requires: snapshot a frame with N >= 2 particles, invertible cell, box lengths >= 2 rdelta; condition a complex
+            (N, m) array; conditiontype 'vector'; ppp in {0,1}^3; rdelta > 0.  ensures: a fresh frame with columns r, gr, gA and
+            int(Lmin/2/rdelta) rows; r[b] = (b+1) rdelta - rdelta/2; gr[b], gA[b] functions of (snapshot, condition, ppp, rdelta, b)."""
+            snapshot, cond, ctype, ppp_a, rdel = args[:5]
+            ts = snapshot.content.get("timestep") if getattr(snapshot, "kind", None) == "obj" else None
+            if not isinstance(ts, sv.SV) or not z3.is_app(ts.t) or ts.t.decl().name() != tr.TS.name():
+                _require(False, "call:conditional_gr:pre:snapshot-is-a-frame-of-the-trajectory", CALL_CGR)
+                raise sv.EngineError("conditional_gr summary: snapshot argument is not a frame of the trajectory")
+            sfr = sv.wrap(ts.t.arg(0))
+            row = A.new_arr((N, M), lambda idx: q.get((sfr, idx[0], idx[1])), "complex")
+            if not _same_array(cond, row, "call:conditional_gr:pre:condition=q_lm-rows-of-the-same-frame", CALL_CGR):
+                raise sv.EngineError("conditional_gr summary: condition is not an array of rank 2")
+            _require(cond.dtype == "complex", "call:conditional_gr:pre:complex-condition", CALL_CGR)
+            _require(isinstance(ctype, str) and ctype == "vector", "call:conditional_gr:pre:conditiontype=vector", CALL_CGR)
+            if not _same_array(ppp_a, inp["ppp"], "call:conditional_gr:pre:ppp=self.ppp", CALL_CGR):
+                raise sv.EngineError("conditional_gr summary: ppp is not an array of rank 1")
+            for k in range(3):
+                _require(sv.or_(sv.cmp("==", ppp_a.get((k,)), 0), sv.cmp("==", ppp_a.get((k,)), 1)), "call:conditional_gr:pre:ppp-in-{0,1}", CALL_CGR)
+            _require(sv.cmp("==", rdel, rd), "call:conditional_gr:pre:rdelta=the-argument", CALL_CGR)
+            _require(sv.cmp(">", rdel, 0), "call:conditional_gr:pre:rdelta>0", CALL_CGR)
+            _require(sv.cmp(">=", snapshot.content.get("nparticle"), 2), "call:conditional_gr:pre:N>=2", CALL_CGR)
+            _require(sv.cmp("!=", _inv_spec(tr.Hm(sfr), 3)[0], 0), "call:conditional_gr:pre:cell-invertible", CALL_CGR)
+            for c in range(3):
+                _require(sv.cmp(">=", tr.bl(sfr, c), sv.mul(2, rdel)), "call:conditional_gr:pre:at-least-one-bin", CALL_CGR)
+            return frame_table(rows_spec(tr, sfr, rdel), lambda b, ci: cg_val(sfr, b, ci))
+        ctx.interp.summaries[CGR] = cgr
+
+        def hint(interp, s, frame, st, lo, hi, item_fn):
+            import ast
+            where = f"{frame.fname}:{s.lineno}"
+            # the accumulator: the local the loop body updates with an augmented assignment (glresults in the current source)
+            accs = [n.target.id for n in ast.walk(ast.Module(body=s.body, type_ignores=[])) if isinstance(n, ast.AugAssign) and isinstance(n.target, ast.Name)]
+            var = accs[0] if len(accs) == 1 else "glresults"
+            B0 = rows_spec(tr, lo, rd)
+
+            def inv(k):
+                def val(b, ci):
+                    if ci == 0:     # the bin centres do not depend on the frame: k - lo equal addends
+                        return sv.mul(sv.to_real(sv.sub(k, lo)), bin_centre(b, rd))
+                    return Sum(lo, k, lambda t: cg_val(t, b, ci))
+                return frame_table(B0, val)
+
+            def run(kv, val, extra):
+                fr = Frame(frame.module, dict(frame.env), frame.fname)
+                fr.env[var] = val
+                st2 = st.fork()
+                st2.pc = list(st.pc) + [sv.zb(sv.cmp(">=", kv, lo)), sv.zb(sv.cmp("<", kv, hi))] + extra
+                with use_state(st2):
+                    interp.assign(s.target, item_fn(kv), fr)
+                    outs = interp.exec_block_paths(s.body, fr, st2)
+                normal = [(f2, s2) for f2, s2, out in outs if out[0] == "normal"]
+                if len(outs) != 1 or len(normal) != 1:
+                    raise sv.EngineError("spatial_corr frame loop: body does not have a single normal path")
+                return normal[0]
+
+            def eq_goals(s2, got, want_df, kind):
+                b = sv.fresh_int("b")
+                with use_state(s2):
+                    if not (getattr(got, "kind", None) == "df" and df_content(got)["order"] == GCOLS and A.dim_eq_syntactic(df_content(got)["n"], B0)):
+                        st.side.append(_named(_SideGoal(kind + ":accumulator-is-a-frame(r,gr,gA)-with-the-rows-of-frame-0", z3.BoolVal(False), s2.all_assumptions(), where), LOOP_INV))
+                        return
+                    for c in GCOLS:
+                        g = sv.cmp("==", df_content(got)["cols"][c].get((b,)), df_content(want_df)["cols"][c].get((b,)))
+                        goal = sv.zb(sv.implies(sv.and_(sv.cmp(">=", b, 0), sv.cmp("<", b, B0)), g))
+                        st.side.append(_named(_SideGoal(f"{kind}:column-{c}", goal, s2.all_assumptions(), where), LOOP_INV))
+            if var not in frame.env:
+                raise sv.EngineError("spatial_corr frame loop: no accumulator glresults before the loop")
+            # init: the first iteration, from the real pre-state, establishes inv(lo + 1)
+            lo1 = A.simp(sv.add(lo, 1))
+            want1 = inv(lo1)
+            f2, s2 = run(lo, frame.env[var], [])
+            eq_goals(s2, f2.env.get(var), want1, "loop-init")
+            # step: from inv(k), lo + 1 <= k < hi, the body establishes inv(k + 1)
+            k = sv.fresh_int("k")
+            cur_df, nxt_df = inv(k), inv(A.simp(sv.add(k, 1)))
+            f3, s3 = run(k, cur_df, [sv.zb(sv.cmp(">=", k, lo1))])
+            eq_goals(s3, f3.env.get(var), nxt_df, "loop-step")
+            # post-state (the loop runs at least once: T >= 1)
+            frame.env[var] = inv(hi)
+            interp.assign(s.target, item_fn(A.simp(sv.sub(hi, 1))), frame)
+        ln = _first_for_lineno(self.qualname)
+        ctx.interp.loop_hints[(f"{MOD}.{self.qualname}", "for", ln)] = hint
+        outputfile = "gl.csv" if of == "file" else ""
+        inp.update(rd=rd, CG=CG, of=outputfile, b=ctx.int("b"), cg_val=cg_val)
+        return [o], dict(coarse_graining=(cg == "coarse"), rdelta=rd, outputfile=outputfile), inp
+
+    def clause_names(self, case):
+        return [CALL_CGR, LOOP_INV, "columns=(r,gr,gA)", "rows=int(Lmin/2/rdelta)", "r=bin-centre", "gr,gA=frame-average-of-conditional_gr", "file=returned"]
+
+    def ensures(self, ctx, case, inp, out):
+        from pyvc.pandas_model import df_content
+        res = out.value
+        ok = getattr(res, "kind", None) == "df" and df_content(res)["order"] == GCOLS
+        yield "columns=(r,gr,gA)", bool(ok)
+        if not ok:
+            return
+        tr, T, rd, b = inp["tr"], inp["T"], inp["rd"], inp["b"]
+        n = df_content(res)["n"]
+        cols = df_content(res)["cols"]
+        B = rows_spec(tr, 0, rd)
+        yield "rows=int(Lmin/2/rdelta)", sv.and_(sv.cmp("==", n, B), *[sv.cmp("==", cols[c].shape[0], n) for c in GCOLS])
+        inr = sv.and_(sv.cmp(">=", b, 0), sv.cmp("<", b, B))
+        yield "r=bin-centre", sv.implies(inr, sv.cmp("==", cols["r"].get((b,)), bin_centre(b, rd)))
+        eqs = []
+        for ci, c in enumerate(GCOLS):
+            if ci:
+                want = sv.div(Sum(0, T, lambda t: inp["cg_val"](t, b, ci)), T)
+                eqs.append(sv.cmp("==", cols[c].get((b,)), want))
+        yield "gr,gA=frame-average-of-conditional_gr", sv.implies(inr, sv.and_(*eqs))
+        writes = [e for e in out.state.trace if e[0] in ("to_csv", "np.save", "np.savetxt")]
+        if not inp["of"]:
+            yield "file=returned", len(writes) == 0
+        elif len(writes) == 1 and writes[0][0] == "to_csv" and writes[0][1] == inp["of"] and writes[0][3] == GCOLS and writes[0][4] == "%.8f":
+            yield "file=returned", sv.implies(inr, sv.and_(sv.cmp("==", writes[0][5], n),
+                                                           *[sv.cmp("==", writes[0][2][c].get((b,)), cols[c].get((b,))) for c in GCOLS]))
+        else:
+            yield "file=returned", False
+
+    def replay(self, case, clause, model, seed):
+        return _replay_boo("spatial_corr", case, clause, model, seed)
+
+
+class TimeCorr(Unit):
+    """boo_3d.time_corr(coarse_graining, dt, outputfile): time_correlation(trajectory, q_lm resp. Q_lm, dt) (C14 callee contract: frame
+    (t, time_corr) with T rows, t[k] = (ts_k - ts_0) dt, time_corr[k] = C(k)/C(0) where C is the origin-averaged autocorrelation
+    Re sum_i sum_m q_lm(i, n0+k) conj q_lm(i, n0) for evenly spaced frames and the first-origin one otherwise; requires C(0) != 0), whose
+    column time_corr is multiplied by 4 pi/(2l+1) and divided by its own (rescaled) row 0.  Postcondition (eq. (9) normalised as the code's
+    comment and the library's C14 convention say): row 0 is exactly 1, time_corr[k] = C(k)/C(0) — the factor 4 pi/(2l+1) cancels —, t is
+    the callee's time axis, the CSV holds the returned columns."""
+    module = MOD
+    qualname = f"{CLS}.time_corr"
+    prop = "C09"
+    timeout = 10
+
+    def cases(self):
+        return [f"{cg}/{of}" for cg in ("local", "coarse") for of in ("nofile", "file")]
+
+    def setup(self, ctx, case):
+        from contracts.C14 import Spec
+        from pyvc.pandas_model import df_method, new_df
+        from pyvc.state import cur
+        cg, of = case.split("/")
+        o, inp = _setup_corr(ctx, cg == "coarse")
+        tr, T, N, M, q = inp["tr"], inp["T"], inp["N"], inp["M"], inp["q"]
+        dt = ctx.real("dt")
+        # C14's case split: evenly spaced frames (needs T >= 2) use every time origin, any other series the first frame only
+        even = ctx.bool("frames_evenly_spaced")
+        ctx.assume(sv.implies(even, sv.cmp(">=", T, 2)))
+        spec = Spec(q, 3, M, T, N)
+
+        def C(k):
+            return sv.ite(even, sv.SV(spec.C(k, "linear")), sv.SV(spec.C(k, "log")))
+        C0 = C(0)
+        ctx.assume(sv.cmp("!=", C0, 0))      # precondition of time_correlation (C14): the lag-zero value it divides by is non-zero
+
+        def ts(k):
+            return sv.SV(tr.TS(sv.znum(k)))
+        calls = []
+
+        def tc(interp, args, kwargs):
+            """callee contract of time_correlation(snapshots, condition, dt, outputfile) for a rank-3 (vector) series (C14)"""
+            snapshots, cond, dt_a, outfile = args[:4]
+            _require(getattr(snapshots, "sid", None) == inp["snaps"].sid, "call:time_correlation:pre:snapshots-is-the-trajectory", CALL_TC)
+            if not _same_array(cond, q, "call:time_correlation:pre:condition=the-selected-q_lm-field", CALL_TC):
+                raise sv.EngineError("time_correlation summary: condition is not an array of rank 3")
+            _require(sv.cmp("==", dt_a, dt), "call:time_correlation:pre:dt=the-argument", CALL_TC)
+            _require(sv.cmp("!=", C0, 0), "call:time_correlation:pre:C(0)!=0", CALL_TC)
+            calls.append(1)
+            cols = {"t": A.new_arr((T,), lambda idx: sv.mul(sv.to_real(sv.sub(ts(idx[0]), ts(0))), dt_a), "float"),
+                    "time_corr": A.new_arr((T,), lambda idx: sv.div(C(idx[0]), C0), "float")}
+            df = new_df(cols, ["t", "time_corr"], T)
+            cur().assume(sv.cmp("==", sv.div(C0, C0), 1))     # ensures clause time_corr[0] = 1 of the callee
+            if outfile:        # the callee writes its own (un-rescaled) table when it is given a file name
+                df_method(interp, df, "to_csv", [outfile], {"float_format": "%.8f", "index": False})
+            return df
+        ctx.interp.summaries[TCORR] = tc
+        outputfile = "gl_time.csv" if of == "file" else ""
+        inp.update(dt=dt, C=C, C0=C0, ts=ts, of=outputfile, k=ctx.int("k"), calls=calls)
+        return [o], dict(coarse_graining=(cg == "coarse"), dt=dt, outputfile=outputfile), inp
+
+    def clause_names(self, case):
+        return [CALL_TC, "returns-frame(t,time_corr)-with-T-rows", "t[k]=(ts_k-ts_0)*dt", "time_corr[k]=C(k)/C(0)", "time_corr[0]=1",
+                "div0:rescaled-row-0-is-nonzero", "file=returned"]
+
+    def ensures(self, ctx, case, inp, out):
+        from pyvc.pandas_model import df_content
+        res = out.value
+        T, k, l = inp["T"], inp["k"], inp["l"]
+        ok = getattr(res, "kind", None) == "df" and df_content(res)["order"] == ["t", "time_corr"] and A.dim_eq_syntactic(df_content(res)["n"], T) \
+            and all(A.dim_eq_syntactic(df_content(res)["cols"][c].shape[0], T) for c in ("t", "time_corr")) and len(inp["calls"]) == 1
+        yield "returns-frame(t,time_corr)-with-T-rows", bool(ok)
+        if not ok:
+            return
+        cols = df_content(res)["cols"]
+        inr = sv.and_(sv.cmp(">=", k, 0), sv.cmp("<", k, T))
+        yield "t[k]=(ts_k-ts_0)*dt", sv.implies(inr, sv.cmp("==", cols["t"].get((k,)), sv.mul(sv.to_real(sv.sub(inp["ts"](k), inp["ts"](0))), inp["dt"])))
+        # the value at lag k: C(k)/C(0) (the factor 4 pi/(2l+1) cancels: identity of rational functions, the divisor is the div0 clause)
+        yield "time_corr[k]=C(k)/C(0)", sv.implies(inr, sv.cmp("==", cols["time_corr"].get((k,)), sv.div(inp["C"](k), inp["C0"]))), {"ring_only": True}
+        yield "time_corr[0]=1", sv.cmp("==", cols["time_corr"].get((0,)), 1)
+        # the divisor the code introduces: row 0 of the rescaled column, 4 pi/(2l+1) * C(0)/C(0)
+        yield "div0:rescaled-row-0-is-nonzero", sv.and_(sv.cmp("!=", sv.add(sv.mul(2, l), 1), 0),
+                                                        sv.cmp("!=", sv.mul(sv.div(sv.mul(4, sv.PI), sv.add(sv.mul(2, l), 1)), sv.div(inp["C0"], inp["C0"])), 0))
+        writes = [e for e in out.state.trace if e[0] in ("to_csv", "np.save", "np.savetxt")]
+        if not inp["of"]:
+            yield "file=returned", len(writes) == 0
+        elif writes and all(e[0] == "to_csv" and e[1] == inp["of"] for e in writes) and writes[-1][3] == ["t", "time_corr"] and writes[-1][4] == "%.8f":
+            # the content of the file is what the last write put there
+            w = writes[-1]
+            yield "file=returned", sv.and_(sv.cmp("==", w[5], T), sv.implies(inr, sv.and_(*[sv.cmp("==", w[2][c].get((k,)), cols[c].get((k,))) for c in ("t", "time_corr")])))
+        else:
+            yield "file=returned", False
+
+    def replay(self, case, clause, model, seed):
+        return _replay_boo("time_corr", case, clause, model, seed)
+
+
+class Init(Unit):
+    """boo_3d.__init__: stores the constructor arguments, takes nparticle / boxlength from frame 0 (the two asserts pass on a trajectory
+    with one particle number and one box: the object invariant the other units assume) and sets smallqlm, largeQlm = self.qlm_Qlm() — the
+    fields every other method works on are the ones qlm_Qlm (its contract above) computes from the same trajectory, files, l, ppp, Nmax"""
+    module = MOD
+    qualname = f"{CLS}.__init__"
+    prop = "C09"
+    timeout = 6
+
+    def cases(self):
+        return ["weights", "noweights"]
+
+    def setup(self, ctx, case):
+        tr = Traj(ctx, 3, same_cell=True)
+        l, Nmax = ctx.int("l"), ctx.int("Nmax")
+        ppp = A.from_nested([ctx.int(f"ppp_{k}") for k in range(3)], "int")
+        snaps = tr.snapshots()
+        o = ctx.obj(MOD, CLS, {})
+        wf = WEIGHTSFILE if case == "weights" else None
+        M = A.simp(sv.add(sv.mul(2, l), 1))
+        small = A.new_arr((tr.T, tr.N, M), lambda idx: sv.Cx(sv.real("q_re"), sv.real("q_im")), "complex")
+        large = A.new_arr((tr.T, tr.N, M), lambda idx: sv.Cx(sv.real("Q_re"), sv.real("Q_im")), "complex")
+        seen = []
+
+        def qlm(interp, args, kwargs):
+            me = args[0]
+            seen.append(dict(me.content))
+            return (small, large)
+        ctx.interp.summaries[f"{MOD}.{CLS}.qlm_Qlm"] = qlm
+        inp = dict(tr=tr, l=l, Nmax=Nmax, ppp=ppp, snaps=snaps, wf=wf, small=small, large=large, seen=seen, o=o)
+        return [o, snaps, l, NEIGHBORFILE, wf, ppp, Nmax], {}, inp
+
+    def clause_names(self, case):
+        return ["attributes=arguments-when-qlm_Qlm-runs", "smallqlm,largeQlm=qlm_Qlm()", "nparticle,boxlength=those-of-frame-0"]
+
+    def ensures(self, ctx, case, inp, out):
+        seen = inp["seen"]
+        ok = len(seen) == 1
+        if ok:
+            at = seen[0]
+            ok = (getattr(at.get("snapshots"), "sid", None) == inp["snaps"].sid and at.get("l") is inp["l"] and at.get("neighborfile") == NEIGHBORFILE
+                  and at.get("weightsfile") == inp["wf"] and getattr(at.get("ppp"), "sid", None) == inp["ppp"].sid and at.get("Nmax") is inp["Nmax"])
+        yield "attributes=arguments-when-qlm_Qlm-runs", bool(ok)
+        fin = inp["o"].content
+        yield "smallqlm,largeQlm=qlm_Qlm()", bool(isinstance(fin.get("smallqlm"), A.Arr) and fin["smallqlm"].sid == inp["small"].sid
+                                                    and isinstance(fin.get("largeQlm"), A.Arr) and fin["largeQlm"].sid == inp["large"].sid)
+        bl = fin.get("boxlength")
+        c = ctx.int("c_axis")
+        okb = isinstance(bl, A.Arr) and bl.ndim == 1 and A.dim_eq_syntactic(bl.shape[0], 3) and A.dim_eq_syntactic(fin.get("nparticle"), inp["tr"].N)
+        yield "nparticle,boxlength=those-of-frame-0", (sv.implies(sv.and_(sv.cmp(">=", c, 0), sv.cmp("<", c, 3)), sv.cmp("==", bl.get((c,)), inp["tr"].bl(0, c))) if okb else False)
+
+    def raises(self, ctx, case, inp, out):
+        return None
+
+    def replay(self, case, clause, model, seed):
+        return _replay_boo("init", "weighted" if case == "weights" else "unweighted", clause, model, seed)
+
+
 # ---- lemmas on the spec (fresh variables) -------------------------------------------------------------------------
 
 def lemmas():
@@ -775,6 +1442,31 @@ def lemmas():
     hyp = sv.and_(lz >= 3, n2 >= 0, sv.cmp("<=", n2, sv.div(lz, sv.mul(4, sv.PI))))
     val = sv.mul(sv.div(sv.mul(4, sv.PI), lz), n2)
     out.append(("lemma:0<=q_l<=1:4pi/(2l+1)|q|^2-in-[0,1]", sv.implies(hyp, sv.and_(sv.cmp(">=", val, 0), sv.cmp("<=", val, 1))), {}))
+    # eq. (8) of docs/boo_3d.md against what spatial_corr returns.  By the C13 contract frame n contributes gA_n(b) = c_b W_n(b) and
+    # gr_n(b) = c_b P_n(b) with W_n(b) = sum over the pairs i<j of bin b of Re sum_m q_lm(i) conj q_lm(j), P_n(b) = the number of those
+    # pairs and c_b = 2 V/(N^2 shell_b) the same in every frame (N and the box lengths are frame-independent: __init__).  The method
+    # returns the frame means of gA and gr (proved above); their quotient is the pooled pair average
+    #     gA(b)/gr(b) = sum_n W_n(b) / sum_n P_n(b)  =  (2l+1)/(4 pi) G_l(r_b)  of eq. (8):
+    # the constant leaves the frame sums (induction over the frames: base + step) and cancels together with 1/T.
+    I1, R1 = z3.IntSort(), z3.RealSort()
+    Wn, Pn = z3.Function("W_frame", I1, R1), z3.Function("P_frame", I1, R1)
+    cb, kf = sv.real("c_b"), sv.integer("k_frames")
+
+    def lin(fn, n):
+        return sv.cmp("==", Sum(0, n, lambda t: sv.mul(cb, sv.SV(fn(sv.znum(t))))), sv.mul(cb, Sum(0, n, lambda t: sv.SV(fn(sv.znum(t))))))
+    for nm, fn in (("gA", Wn), ("gr", Pn)):
+        out.append((f"lemma:eq(8):{nm}:constant-leaves-the-frame-sum:base", lin(fn, 0), {}))
+        out.append((f"lemma:eq(8):{nm}:constant-leaves-the-frame-sum:step", sv.implies(sv.and_(kf >= 0, lin(fn, kf)), lin(fn, A.simp(sv.add(kf, 1)))), {}))
+    SW, SP, Tn = sv.real("sum_W"), sv.real("sum_P"), sv.real("T_frames")
+    hyp = sv.and_(Tn >= 1, sv.cmp("!=", cb, 0), sv.cmp("!=", SP, 0))
+    out.append(("lemma:eq(8):gA/gr=pooled-pair-average(sum_n-W_n/sum_n-P_n)",
+                sv.implies(hyp, sv.cmp("==", sv.mul(sv.div(sv.mul(cb, SW), Tn), SP), sv.mul(sv.div(sv.mul(cb, SP), Tn), SW))), {}))
+    # eq. (9): the prefactor 4 pi/(2l+1) multiplies numerator and (through the normalisation by the lag-zero value) denominator: it cancels
+    fpre, Ck, C0 = sv.real("f_4pi_over_2l+1"), sv.real("C_k"), sv.real("C_0")
+    out.append(("lemma:eq(9):prefactor-cancels-under-normalisation-at-lag-0",
+                sv.implies(sv.and_(sv.cmp("!=", fpre, 0), sv.cmp("!=", C0, 0)),
+                           sv.and_(sv.cmp("==", sv.mul(sv.mul(fpre, Ck), C0), sv.mul(sv.mul(fpre, C0), Ck)),     # (f C_k)/(f C_0) = C_k/C_0, cross-multiplied
+                                   sv.cmp("==", sv.div(sv.mul(fpre, C0), sv.mul(fpre, C0)), 1))), {}))
     # equal weights reproduce the unweighted result: w_j = a for all j  =>  w_j / (cn a) = 1/cn   (sum_{j<cn} a = cn a)
     aw, cnr = sv.real("a_w"), sv.real("cn")
     out.append(("lemma:equal-weights=>omega_j=1/cn", sv.implies(sv.and_(aw > 0, cnr >= 1), sv.cmp("==", sv.div(aw, sv.mul(cnr, aw)), sv.div(1, cnr))), {}))
@@ -794,23 +1486,39 @@ def extra_checks(tier, seed, repo):
     return {"obligations": obs}
 
 
-UNITS = [QlQl(), QlmQlm(), Sij(), WCap()]
+UNITS = [QlQl(), QlmQlm(), Sij(), WCap(), SpatialCorr(), TimeCorr(), Init()]
 # callee contracts of other properties used at call sites: their units are re-verified with this check
 from contracts.common import callee_units as _callee_units   # noqa: E402
-UNITS = UNITS + _callee_units([('C02', None), ('C05', {'read_neighbors'}), ('C08', None)], UNITS)
+UNITS = UNITS + _callee_units([('C02', None), ('C05', {'read_neighbors'}), ('C08', None), ('C13', {'conditional_gr'}), ('C14', None)], UNITS)
 
 MANIFEST = {
-    "text": "boo_3d.qlm_Qlm, ql_Ql, sij_ql_Ql, w_W_cap and utils.funcs.Wignerindex (real ASTs, re-read every run; symbolic frame number T, "
-            "particle number N, degree l >= 1 (w_W_cap: l = 2), neighbour arrays, cells, masks, Nmax, threshold c): q_lm(n,i) returned by "
+    "text": "boo_3d.__init__, qlm_Qlm, ql_Ql, sij_ql_Ql, w_W_cap, spatial_corr, time_corr and utils.funcs.Wignerindex (real ASTs, re-read every run; "
+            "symbolic frame number T, particle number N, degree l >= 1 (w_W_cap: l = 2, 3, 4, 6), neighbour arrays, cells, masks, Nmax, threshold "
+            "c, rdelta, dt): q_lm(n,i) returned by "
             "qlm_Qlm equals (1/cn) sum_j Y_lm(arccos(b_z/|b|), atan2(b_y,b_x)) over the minimum-image bonds of the neighbour file "
             "(unweighted) resp. sum_j (w_j / sum_j' w_j') Y_lm (weight file; the code's sum over the zero-padded row equals the sum of the "
             "cn_i weights), frame k of both files is used for snapshot k, Q_lm = (q_i + sum_j q_j)/(1+cn_i) over the returned q; index "
             "bounds and loop summaries of the three nested loops; ql_Ql = sqrt(4 pi/(2l+1) sum_m |q_lm|^2) >= 0 for both fields, saved "
             "file = returned array; sij_ql_Ql returns per frame [id, cn, s_ij (j < cn), 0 padding] with s_ij = Re(q_i.conj q_j)/(|q_i||q_j|), "
-            "the csv frame holds id, #{j < cn_i : s_ij > c}, cn_i at row n*N+i, the ValueError branch is unreachable; w_l and w^_l (eq. 6, 7) "
-            "with Wignerindex executed from its body; lemmas: Lagrange identity => |s_ij| <= 1 for l = 1..12, convexity identity + induction "
-            "step + base => 0 <= q_l <= 1, equal weights => omega_j = 1/cn.",
-    "note": "floats as reals (A1, s_ij is stored in float32); callee contracts of read_neighbors (C05), sph_harm_l (C08), remove_pbc (C02); "
-            "Y_lm abstract (only the table layout is used); positive weights and cn_i >= 1 as the property states; spatial_corr / time_corr "
-            "not under contract; on the unfixed /repo the obligation csv:count fails for c < 0 (padding counted, design_notes/C09.fix-1.diff)",
+            "the csv frame holds id, #{j < cn_i : s_ij > c}, cn_i at row n*N+i, the ValueError branch is unreachable; with outputsij the returned "
+            "array is the frames stacked (row n*N+i) and cut to 2 + maxcn columns, maxcn the largest coordination number (attained, bounds "
+            "every cn_i, <= Nmax), and np.savetxt receives that array with header 'id CN sij' and the format '%d %d ' + maxcn * '%.6f ' (one "
+            "format per column); w_l and w^_l (eq. 6, 7) "
+            "with Wignerindex executed from its body; spatial_corr (both fields, with / without csv): every call of conditional_gr passes the "
+            "snapshot of frame n, the q_lm (Q_lm) rows of the same frame, conditiontype 'vector', the object's ppp and the rdelta argument and "
+            "meets the callee's preconditions (named clause), the frame loop satisfies the written invariant glresults(k) = sum_{t<k} "
+            "conditional_gr(frame t) (init from the real pre-state 0, step), the returned frame has columns r, gr, gA and int(Lmin/2/rdelta) "
+            "rows, r = bin centre, gr / gA = (1/T) sum_n of the callee's tables, bin by bin, csv = returned columns (%.8f); time_corr (both "
+            "fields, with / without csv): time_correlation is called with the trajectory, the selected field and dt, the returned frame has "
+            "T rows, t[k] = (ts_k - ts_0) dt untouched, time_corr[k] = C(k)/C(0) (the factor 4 pi/(2l+1) cancels), time_corr[0] = 1, the "
+            "divisor 4 pi/(2l+1) C(0)/C(0) is non-zero, csv = returned columns; the units of conditional_gr (C13) and time_correlation (C14) are "
+            "re-verified with this check; __init__ stores its arguments before qlm_Qlm runs and sets smallqlm, largeQlm to the pair qlm_Qlm returns; "
+            "lemmas: Lagrange identity => |s_ij| <= 1 for l = 1..12, convexity identity + induction "
+            "step + base => 0 <= q_l <= 1, equal weights => omega_j = 1/cn, eq. (8): gA/gr of the returned frame means = pair average pooled "
+            "over the frames, eq. (9): the prefactor cancels under the normalisation at lag 0.",
+    "note": "floats as reals (A1, s_ij is stored in float32); callee contracts of read_neighbors (C05), sph_harm_l (C08), remove_pbc (C02), "
+            "conditional_gr (C13), time_correlation (C14); Y_lm abstract (only the table layout is used); positive weights and cn_i >= 1 as the "
+            "property states; preconditions of the correlation methods: N >= 2, rdelta > 0, box lengths >= 2 rdelta, lag-zero correlation "
+            "non-zero; object invariant of __init__ (equal box lengths and particle numbers in all frames) assumed; eq. (8)/(9) as printed "
+            "carry a prefactor 4 pi/(2l+1) that the returned frames do not (documentation looseness, see NOT_DECIDED / design_notes/C09.md)",
 }
